@@ -123,7 +123,7 @@ pub fn parse(b: &[u8]) -> Option<Cram> {
     while p < b.len() {
         let length = i32le(b, p)?;
         let mut q = p + 4;
-        let mut next = |q: &mut usize| -> Option<i32> {
+        let next = |q: &mut usize| -> Option<i32> {
             let (v, n) = read_itf8(b, *q)?;
             *q += n;
             Some(v)
